@@ -669,7 +669,7 @@ impl Kernel {
             crate::report::nontrivial();
             return Outcome::Err(tape::pick(site::ERRNO, ERRNOS));
         }
-        if data {
+        if data && !self.full_only.contains(&fd) {
             edge -= i64::from(cfg.p_zero);
             if v >= edge && cfg.p_zero > 0 {
                 stats::inc(C::fault_zero);
@@ -1105,6 +1105,12 @@ impl Kernel {
                     }
                     Outcome::Err(e) | Outcome::Interrupt(e) => res = -e,
                 }
+            }
+            OpClass::Pipe if tape::chance(site::FAULT, self.cfg.p_pipe_einval, 100) => {
+                // An older kernel: the operation does not exist.
+                stats::inc(C::fault_errno);
+                crate::report::nontrivial();
+                res = -libc::EINVAL;
             }
             OpClass::Pipe => match self.draw_outcome(fd, 0, false) {
                 Outcome::Ok(_) => {
